@@ -219,7 +219,7 @@ def _worker(arg):
 def model_exprs(case, raw):
     b1, b2, cnt, off = raw
     px = C.lst([C.tup(C.tup(C.z(r), C.z(c)), C.z(v)) for r, c, v in zip(b1, b2, cnt)])
-    exprs = []
+    exprs = [f"(valid_csr_b {C.z(case['n'])} (epx_of {px}) {C.zl(off)}, upper_b {px})"]
     for tag in case["chunks"]:
         cs = chunk_value(tag, len(b1))
         exprs.append(f"all_window_cksums {C.z(case['n'])} {px} {C.zl(off)} {C.z(cs)} {C.b(case['symm'])}")
@@ -389,10 +389,14 @@ def run(ctx):
     for k, (c, r) in enumerate(zip(cases, results)):
         es = model_exprs(c, r["raw"])
         exprs += es
-        owners += [(k, tag) for tag in c["chunks"]]
+        owners += [(k, "hyp")] + [(k, tag) for tag in c["chunks"]]
     model = C.coq_eval("From Cooler Require Import Model.Query.", exprs, shard=40, tmpdir=ctx.tmp / "model")
     for (k, tag), mo in zip(owners, model):
         c, r = cases[k], results[k]
+        if tag == "hyp":      # the theorems' hypotheses, evaluated on the raw stored columns
+            hyp_ok = bool(mo[0]) and (bool(mo[1]) or not c["symm"])
+            ctx.compare("hypotheses ValidCSR/Upper hold of the stored table (valid_csr_b, upper_b)", c, True, hyp_ok)
+            continue
         wins = windows(c["n"])
         im = r["cks"][tag]
         nontriv = [(k, tag, w) for w in wins if w[1] > w[0] and w[3] > w[2]] if c["pixels"] else []
